@@ -621,3 +621,75 @@ class ItemSearch_find(_Item):
 class ItemSearch_find_direct(_Item):
     target = f"{SEARCH}:ItemSearch.find_direct"
     base_fn = FindDirectS
+
+
+# ------------------------------------------------------------------------------------------------ DerivationTree.find_by_origin (C01)
+
+OriginS = z3.Function("OriginS", I, IS)                 # (tree) -> the nodes below it (children and sources, terminals included) tagged with the repetition id, then itself
+
+
+@register
+class Tree_find_by_origin(Contract):
+    """C01 (computed repetition counts are enforced on what find_by_origin reports): the first statement collects the result of
+    the recursive call for EVERY child and EVERY source, in that order -- no child is skipped, whatever its symbol is.
+    Prefix contract: the loop over the node's own tags that follows is outside the engine's reach (tuple targets + break)."""
+    target = "language/tree.py:DerivationTree.find_by_origin"
+    properties = ("C01",)
+    float_mode = "real"
+    prefix_only = True
+
+    def inputs(self, cx):
+        t = some_tree(cx, "self")
+        kids, srcs = z3.Const("children_seq", IS), z3.Const("sources_seq", IS)
+        t.fields["_children"] = self._any_symbol_list(cx, kids, "children")
+        t.fields["_sources"] = self._any_symbol_list(cx, srcs, "sources")
+        t.fields["origin_repetitions"] = cx.opaque_list(cx.int("n_origin", lo=0))
+        cx.ghost["both"] = z3.Concat(kids, srcs)
+        cx.ghost["inline_ok"] = {"language/tree.py:DerivationTree.symbol", "language/symbols/symbol.py:Symbol.is_non_terminal",
+                                 "language/symbols/symbol.py:Symbol.is_terminal"}
+        return {"self": t, "node_id": cx.str("node_id")}
+
+    @staticmethod
+    def _any_symbol_list(cx, seq, label):
+        """trees by identity whose symbol is a terminal or a nonterminal (its kind is unknown)"""
+        l = tree_list(cx, seq, label)
+        base_elem = l.elem
+
+        def elem(j):
+            o = base_elem(j)
+            sy = SObj("Symbol", {}, fresh=False, label=f"{label}[{idx_term(j)}].symbol")
+            sy.ident = SymOf(o.ident)
+            sy.fields["_type"] = cx.opaque("SymbolType", base="kind_of_symbol")
+            o.fields["_symbol"] = sy
+            return o
+
+        l.elem = elem
+        l.ghost["seq_make"] = lambda sq: Tree_find_by_origin._any_symbol_list(cx, sq, label + "'")
+        return l
+
+    # call-site direction (the recursion)
+    def fresh_result(self, cx, a):
+        l = tree_list(cx, OriginS(a["self"].ident), "found_below")
+        cx.ghost.setdefault("origin_calls", []).append((a["self"], a["node_id"], l))
+        return l
+
+    def finish(self, cx, a, out):
+        # (whether the exploration reached the end of the function or was cut at the loop: the obligations are about the first statement)
+        calls = cx.ghost.get("origin_calls", [])
+        if len(calls) != 1:
+            raise Unsupported("the recursive calls of find_by_origin cannot be read as one call per element")
+        elem, nid, _ = calls[0]
+        ident = elem.ident
+        both = cx.ghost["both"]
+        over_all = z3.is_app(ident) and ident.num_args() == 2 and z3.eq(ident.arg(0), both)
+        maps = cx.ghost.get("flat_maps", [])
+        if len(maps) != 1:
+            if out.kind == "cut":
+                raise Unsupported("the first statement is outside the engine's reach: " + "; ".join(cx.assumed[-1:]))
+            # (a filter in the comprehension, or another way of collecting the results: not readable -- undecided, not a violation)
+            raise Unsupported("the results of the recursive calls are not collected by one unfiltered sum(..., []) over the searched nodes")
+        src_seq = maps[0].ghost.get("seq") if isinstance(maps[0], SList) else None
+        kept = [Implies(And(rng, *assumed), ct) for rng, assumed, ct in cx.ghost.get("flat_map_filters", [])]
+        return [("every_child_and_source_is_searched_in_order", z3.BoolVal(bool(over_all)) if src_seq is None else And(z3.BoolVal(bool(over_all)), src_seq == both)),
+                ("no_searched_node_is_skipped_whatever_its_symbol", And(*kept) if kept else z3.BoolVal(True)),
+                ("searched_for_the_requested_id", z3.BoolVal(nid is a["node_id"]))]
